@@ -3428,11 +3428,12 @@ class SEVM:
                     offset = ex.int_of(state.pop(), "symbolic RETURNDATACOPY offset")
                     size: int = ex.int_of(state.pop(), "symbolic RETURNDATACOPY size")
 
-                    if size:
-                        # no need to check for a huge size because reading out of bounds reverts
-                        if offset + size > ex.returndatasize():
-                            raise OutOfBoundsRead("RETURNDATACOPY out of bounds")
+                    # no need to check for a huge size because reading out of bounds reverts
+                    # (EIP-211: the bounds check applies even when size is zero)
+                    if offset + size > ex.returndatasize():
+                        raise OutOfBoundsRead("RETURNDATACOPY out of bounds")
 
+                    if size:
                         data: ByteVec = ex.returndata().slice(offset, offset + size)
                         state.set_mslice(loc, data)
 
